@@ -15,6 +15,7 @@ mod gen_tuples;
 mod guard_engine;
 mod query_engine;
 mod sched;
+mod tracker_engine;
 mod world_engine;
 
 use std::io::{BufRead, BufWriter, Write};
@@ -41,6 +42,7 @@ fn run_case(args: &[u64]) -> Out {
     match args.first() {
         Some(1) => world_engine::run(&args[1..], &mut out),
         Some(2) => world_engine::run_twin(&args[1..], &mut out),
+        Some(18) => tracker_engine::run(&args[1..], &mut out),
         Some(19) => bits::run(&args[1..], &mut out),
         Some(6) => sched::run_borrow(&args[1..], &mut out),
         Some(60) => sched::stress_borrow(&args[1..], &mut out),
